@@ -13,6 +13,7 @@ import (
 	"fmt"
 	"io/ioutil"
 	"os"
+	"runtime"
 	"time"
 )
 
@@ -182,6 +183,13 @@ func Watch(p interface{}) {}
 // WatchAll(true) does the same for every object that is not a non-escaping local variable: meant
 // for short windows (a few callbacks running concurrently).
 func WatchAll(on bool) {}
+
+// Depth returns the depth of the calling goroutine's call stack (frames). The executor counts its
+// own frames, the native build asks the runtime; only differences between two calls are meaningful.
+func Depth() int {
+	var pcs [4096]uintptr
+	return runtime.Callers(0, pcs[:])
+}
 
 // AdvanceClock lets n seconds of the executor's concrete clock pass; natively it sleeps n*10ms
 // (harnesses scale their time-outs accordingly, see Unit).
